@@ -220,7 +220,7 @@ void child_step() {
   }
   for (int pc : g.ign_term_pcs)
     if ((int)r.pc > pc) c.ign_term = true;
-  if (c.steps > g.step_budget && !g.gave_up) sim_fail("harness/step_budget", "budget", "child step budget exhausted");
+  if (c.steps > g.step_budget && !g.gave_up) sim_fail("liveness/exchange_never_ends", "child_step_budget", "the child has made 40000 steps and the call still has not finished: the exchange between parent and child never ends");
 }
 
 // A scheduling point of the parent: time passes, the child may run.
